@@ -123,7 +123,7 @@ type finding struct{ key, what string }
 // monitor is the post-write hook: the "at every instant" part of the oracles.
 type monitor struct {
 	cur      *opCtx
-	tracked  map[sim.Key]bool // objects of the package under test (O5)
+	tracked  map[sim.Key]bool  // objects of the package under test (O5)
 	revUIDs  map[string]string // uid -> name of the existing revisions of the package under test
 	found    []finding
 	gcLegit  int
